@@ -85,7 +85,7 @@ def parse_url(url: str) -> ParsedURL:
     path = parsed.path if parsed.path else "/"
 
     # Construct normalized URL (IP literals - IPv6 or IPvFuture - stay bracketed)
-    bracketed = parsed.netloc.rpartition("@")[2].startswith("[")
+    bracketed = "[" in parsed.netloc.rpartition("@")[2]
     host = f"[{parsed.hostname}]" if bracketed else parsed.hostname
     normalized = urlunparse(
         (
